@@ -30,6 +30,9 @@ RULE += (
     ' back, integer-hash twins (masks differing by 2**61-1), payloads of EVERY length 2..140 under every'
     ' identity, order-preserving digests of all definition / lookup tables at every stage.'
 )
+RULE += (
+    " Also: MSM twins whose mask numbers read the same in decimal."
+)
 ASSUMPTIONS = [
     "refmodel expectation is history-free by construction; label values are taken from the first parse and "
     "cross-checked by C09",
@@ -288,6 +291,18 @@ def build_corpus(seed, per_identity):
             except (refmodel.DefinitionError, KeyError):
                 continue
             corpus.append(dict(op="ctor", data=enc.payload, labelmsm=1, tag=pre + "1:hash-twin", enc=enc, fails=False))
+    # twins whose mask NUMBERS read the same when written one after the other in decimal without separators
+    # (satellite mask 1 / signal mask 64 vs 16 / 4): anything keyed on a concatenated text of the masks confuses them
+    for pre in list(refmsm.CONSTELLATION)[:4]:
+        for a1, g1, a2, g2 in ((1, 64, 16, 4), (12, 8, 1, 28), (2, 56, 25, 6), (130, 2, 1, 302)):
+            for sm, gm in ((a1, g1), (a2, g2)):
+                w = bin(sm).count("1") * bin(gm).count("1")
+                try:
+                    enc = refmodel.build(pre + "4", rng, "random", "small", "random",
+                                         force={"DF394": sm, "DF395": gm, "DF396": 1 if w else 0})
+                except (refmodel.DefinitionError, KeyError):
+                    continue
+                corpus.append(dict(op="ctor", data=enc.payload, labelmsm=1, tag=pre + "4:hash-twin", enc=enc, fails=False))
     # the largest MSM messages (64 satellites x 1 signal, all cells)
     for pre in refmsm.CONSTELLATION:
         for lvl in "57":
